@@ -15,7 +15,7 @@ import (
 // type") when the dynamic type of k is a slice, map or func (or a struct/array containing one).
 // Sites: every MapUpdate with an interface-typed key in the data scope.
 // Discharge, in order:
-//   1. the dynamic-type provenance of k contains hashable types only;
+//   1. the dynamic-type provenance of k contains hashable types only; or k is itself a key of an existing map;
 //   2. relational: k = f(K.Interface()) where K is a key of an existing map (an element of reflect.Value.MapKeys()
 //      or MapRange().Key()) - such a value is hashable, so its Kind is not Slice, Map or Func - and every return of f
 //      whose result may be of an unhashable type sits where, on every path, Kind(reflect.ValueOf(param)) was found
@@ -70,6 +70,37 @@ func isExistingMapKey(v ssa.Value) bool {
 	}
 	if kc, ok := k.(*ssa.Call); ok && core.StaticCalleeName(&kc.Call) == "(*reflect.MapIter).Key" {
 		return true
+	}
+	return false
+}
+
+// isSameExistingKey: v is the very value of a key of an existing map, looked at through assertions / boxing only.
+func isSameExistingKey(v ssa.Value) bool {
+	for i := 0; i < 6; i++ {
+		if isExistingMapKey(v) {
+			return true
+		}
+		switch x := v.(type) {
+		case *ssa.Extract:
+			if nx, ok := x.Tuple.(*ssa.Next); ok && !nx.IsString && x.Index == 1 {
+				if _, isRange := nx.Iter.(*ssa.Range); isRange {
+					return true
+				}
+			}
+			if ta, ok := x.Tuple.(*ssa.TypeAssert); ok && x.Index == 0 {
+				v = ta.X
+				continue
+			}
+			return false
+		case *ssa.TypeAssert:
+			v = x.X
+		case *ssa.MakeInterface:
+			v = x.X
+		case *ssa.ChangeInterface:
+			v = x.X
+		default:
+			return false
+		}
 	}
 	return false
 }
@@ -134,6 +165,10 @@ func (c *Ctx) ruleHashKey(rule string, fns map[*ssa.Function]bool) {
 				}
 				if !ts.Top && len(unh) == 0 {
 					c.R.Ok(rule, k, c.M.InstrPos(mu), what, "the key's dynamic types are all hashable: "+ts.String())
+					continue
+				}
+				if isSameExistingKey(mu.Key) {
+					c.R.Ok(rule, k, c.M.InstrPos(mu), what, "the key is itself a key of an existing map (range key, MapKeys element or MapRange key, possibly type-asserted): it has been hashed before")
 					continue
 				}
 				if why, ok, applies := c.hashKeyByKeySchema(dt, mu.Key); applies {
